@@ -205,6 +205,20 @@ def gen_synthetic(ctx):
             ys[0] = 0.0
             ys[-1] = 0.0
         out.append([[x, y] for x, y in zip(xs, ys)])
+    # depths of C09's class that are not strictly increasing / have fewer than two points: what a bar of zero length
+    # produces ([[b,0],[b,0],[b,0]]) and what the sum of two such depths is (the single point [[x,0]]); both are the zero function
+    u = r.random()
+    if u < 0.08:
+        b = base_coord(r, mode) * scale
+        out.insert(r.randint(0, len(out)), [[b, 0.0], [b, 0.0], [b, 0.0]])
+        ctx.count("synthetic:zero_length_bar_depth")
+    elif u < 0.16:
+        out.insert(r.randint(0, len(out)), [[base_coord(r, mode) * scale, 0.0]])
+        ctx.count("synthetic:single_point_depth")
+    elif u < 0.2 and len(out[0]) >= 3:
+        i = r.randrange(1, len(out[0]))
+        out[0].insert(i, list(out[0][i]))               # a repeated interior / last point: zero-width flat segment
+        ctx.count("synthetic:repeated_point")
     return out
 
 
